@@ -4,6 +4,7 @@
 package c12
 
 import (
+	"bytes"
 	"encoding/binary"
 	"encoding/json"
 	"fmt"
@@ -131,10 +132,22 @@ func init() {
 		})
 }
 
+// EmptyMsg is a field-less message only the Codec knows; its encoding is zero bytes long (what a proto-like codec
+// produces for an empty message).
+type EmptyMsg struct{}
+
 type jsonCodec struct{}
 
-func (jsonCodec) Encode(m vivid.Message) ([]byte, error) { return json.Marshal(m) }
+func (jsonCodec) Encode(m vivid.Message) ([]byte, error) {
+	if _, ok := m.(*EmptyMsg); ok {
+		return []byte{}, nil
+	}
+	return json.Marshal(m)
+}
 func (jsonCodec) Decode(b []byte) (vivid.Message, error) {
+	if len(b) == 0 {
+		return &EmptyMsg{}, nil
+	}
 	var o OutsideMsg
 	if err := json.Unmarshal(b, &o); err != nil {
 		return nil, err
@@ -153,7 +166,12 @@ func registry() map[string]reflect.Type {
 }
 
 func opt() arb.Opt {
-	return arb.Opt{Registry: registry(), MaxDepth: 3, NilMessage: true, NilPointers: false}
+	return arb.Opt{Registry: registry(), MaxDepth: 3, NilMessage: true, NilPointers: false, Outside: func(t *rapid.T) any {
+		if rapid.Bool().Draw(t, "emptyOutside") {
+			return &EmptyMsg{}
+		}
+		return &OutsideMsg{A: rapid.Int64().Draw(t, "oA"), B: rapid.String().Draw(t, "oB")}
+	}}
 }
 
 type failer struct {
@@ -484,5 +502,69 @@ func TestC12Primitives(t *testing.T) {
 		vstat.Case(vstat.HashBytes(append(data, []byte(strings.Join(ds, "|"))...)), nontrivial, []string{"prim", fmt.Sprintf("order:%v", order)}, func() any {
 			return map[string]any{"types": ds, "bytes": len(data), "byPointer": byPtr}
 		})
+	})
+}
+
+// TestC12LengthPrefixes: the length-prefixed primitives user-registered writers build on (1-, 2- and 4-byte prefixes,
+// WriteShortString), at and around the largest length each prefix can carry. A value the writer accepts must come
+// back unchanged and leave the following field where it is; the writer may refuse only what the prefix cannot carry.
+func TestC12LengthPrefixes(t *testing.T) {
+	limits := map[int]int{messages.LengthSize1: 255, messages.LengthSize2: 65535, messages.LengthSize4: 1 << 30}
+	rapid.Check(t, func(rt *rapid.T) {
+		size := rapid.SampledFrom([]int{messages.LengthSize1, messages.LengthSize2, messages.LengthSize1, messages.LengthSize2, messages.LengthSize4}).Draw(rt, "prefix")
+		max := limits[size]
+		n := rapid.OneOf(
+			rapid.SampledFrom([]int{255, 256, 254, 257, 65535, 65536, 65534, 65537, 0, 1}),
+			rapid.IntRange(0, 70000),
+		).Draw(rt, "length")
+		short := size == messages.LengthSize1 && rapid.Bool().Draw(rt, "viaShortString")
+		salt := rapid.Byte().Draw(rt, "salt")
+		val := make([]byte, n)
+		for i := range val {
+			val[i] = byte(i*31) ^ salt
+		}
+		trailer := rapid.Uint32().Draw(rt, "trailer")
+		f := &failer{rt, func() string {
+			return fmt.Sprintf("prefix of %d bytes (shortString=%v), value of %d bytes, then a uint32", size, short, n)
+		}}
+		w := messages.NewWriter()
+		if short {
+			w.WriteShortString(string(val))
+		} else {
+			w.WriteBytesWithLength(val, size)
+		}
+		w.WriteUint32(trailer)
+		if err := w.Err(); err != nil {
+			if n <= max {
+				f.fail("length-prefix|write", "the writer refuses a value its prefix can carry: %v", err)
+			}
+			vstat.Case(vstat.Hash("lp-rejected", size, n), n == max+1, []string{"length-prefix:rejected"}, func() any { return map[string]any{"prefix": size, "length": n} })
+			return
+		}
+		if n > max {
+			f.fail("length-prefix|accepted-too-long", "a value of %d bytes was accepted although a %d-byte prefix carries at most %d: the length on the wire cannot be right", n, size, max)
+			return
+		}
+		r := messages.NewReader(append([]byte(nil), w.Bytes()...))
+		var got []byte
+		var err error
+		if short {
+			var s string
+			s, err = r.ReadShortString()
+			got = []byte(s)
+		} else {
+			got, err = r.ReadBytesWithLength(size)
+		}
+		if err != nil {
+			f.fail("length-prefix|read", "reading back its own encoding failed: %v", err)
+			return
+		}
+		if !bytes.Equal(got, val) {
+			f.fail("length-prefix|value", "read back %d bytes, wrote %d (or different content)", len(got), len(val))
+		}
+		if tr, err := r.ReadUint32(); err != nil || tr != trailer {
+			f.fail("length-prefix|following-field", "the field behind the value came back as %d (err %v), written %d", tr, err, trailer)
+		}
+		vstat.Case(vstat.Hash("lp", size, n, salt), n >= max-1, []string{"length-prefix:roundtrip"}, func() any { return map[string]any{"prefix": size, "length": n} })
 	})
 }
